@@ -39,6 +39,7 @@ IVal(tp, i) ==
     [] tp = "date"    -> IF i % 2 = 1 THEN "2020-02-29" ELSE "1999-12-31Z"
     [] tp = "Color"   -> IF i % 2 = 1 THEN "red" ELSE "dark blue"        \* enumeration
     [] tp = "Ints"    -> IF i % 2 = 1 THEN "1 2" ELSE "3"                \* list of xs:int
+    [] tp = "IntsAnon" -> IF i % 2 = 1 THEN "1 2 3" ELSE "4"             \* ANONYMOUS: restriction(maxLength 3) of an anonymous list of xs:int
     [] tp = "IntOrStr" -> IF i % 2 = 1 THEN "5" ELSE "five"              \* union
     [] OTHER -> "t"
 
